@@ -24,13 +24,28 @@
 #define SR_NMAX 8
 #endif
 
+/* SR_NMIN == SR_NMAX: one array size per group, the object has a constant size */
+#ifndef SR_NMIN
+#define SR_NMIN 1
+#endif
+#if SR_NMIN == SR_NMAX || defined(SR_BIGOBJ)
+#define SR_ALLOC (SR_NMAX * sizeof(int64_t))
+#else
+#define SR_ALLOC ((size_t) n * sizeof(int64_t))
+#endif
+
 /* ghosts */
 long g_p, g_q;                       /* P: first position of old;  Q: landing position of new */
 long g_i;                            /* sortedness observer: adjacent pair (g_i, g_i+1) */
 long g_k; int64_t g_vk, g_vk1, g_vkm1; /* positional observer: cell g_k and the pre-state of cells g_k, g_k+1, g_k-1 */
 int64_t g_v; long g_cnt;             /* counting observer: value g_v occurs g_cnt times in the input */
 
+#ifdef SR_NO_FORALL
+#define S1(a, n, k) (!((k) + 1 < (n)) || (a)[(k)] <= (a)[(k) + 1])
+#define SORTED_ADJ(a, n) (S1(a, n, 0) && S1(a, n, 1) && S1(a, n, 2) && S1(a, n, 3) && S1(a, n, 4) && S1(a, n, 5) && S1(a, n, 6))
+#else
 #define SORTED_ADJ(a, n) __CPROVER_forall { long k_; (0 <= k_ && k_ < SR_NMAX - 1) ==> (!(k_ + 1 < (n)) || (a)[k_] <= (a)[k_ + 1]) }
+#endif
 
 /* count of v in a[0..n): constant-bound sum (SR_NMAX terms) */
 #define C1(a, n, v, k) ((long) ((k) < (n) && (a)[(k)] == (v)))
@@ -60,32 +75,47 @@ WITNESS(sort_replace);
 #define Q_DOWN (0 <= g_q && g_q <= g_p && arr[g_q] > new && (g_q == 0 || arr[g_q - 1] <= new))      /* new < old */
 
 void c_sort_replace(int64_t *arr, int64_t n, int64_t old, int64_t new)
-__CPROVER_requires(1 <= n && n <= SR_NMAX && __CPROVER_is_fresh(arr, (size_t) n * sizeof(int64_t)))
+#ifdef SR_TYPED
+/* the harness allocates the array as a typed object int64_t[n] (symbolic n): 8-byte cells, no byte
+ * reassembly; the contract then only names its extent */
+__CPROVER_requires(SR_NMIN <= n && n <= SR_NMAX && __CPROVER_rw_ok(arr, SR_ALLOC))
+#else
+__CPROVER_requires(SR_NMIN <= n && n <= SR_NMAX && __CPROVER_is_fresh(arr, SR_ALLOC))
+#endif
 __CPROVER_requires(SORTED_ADJ(arr, n))
 /* old is in arr; g_p is its first position */
 __CPROVER_requires(0 <= g_p && g_p < n && arr[g_p] == old && (g_p == 0 || arr[g_p - 1] < old))
 __CPROVER_requires(old == new || (old < new && Q_UP) || (new < old && Q_DOWN))
 /* observers */
 __CPROVER_requires(0 <= g_k && g_k < n && g_vk == arr[g_k] && (g_k + 1 >= n || g_vk1 == arr[g_k + 1]) && (g_k == 0 || g_vkm1 == arr[g_k - 1]))
+#ifndef SR_NO_COUNT
 __CPROVER_requires(g_cnt == COUNT(arr, n, g_v))
+#endif
 __CPROVER_requires(WBIND(sort_replace, w_n == n && w_p == g_p && w_q == g_q && w_old == old && w_new == new &&
 	WCELL(0, w_a0) && WCELL(1, w_a1) && WCELL(2, w_a2) && WCELL(3, w_a3) && WCELL(4, w_a4) && WCELL(5, w_a5) && WCELL(6, w_a6) && WCELL(7, w_a7)))
 __CPROVER_assigns(__CPROVER_object_whole(arr), g_died)
 /* returns only if old != new */
 __CPROVER_ensures(old != new)
 /* sorted again: every adjacent pair (arbitrary g_i) is in order */
-__CPROVER_ensures(!(0 <= g_i && g_i + 1 < n) || arr[g_i] <= arr[g_i + 1])
+__CPROVER_ensures(!(0 <= g_i && g_i < n - 1) || arr[g_i] <= arr[g_i + 1])
 /* positional description and frame (arbitrary cell g_k) */
 __CPROVER_ensures(!(old < new) || arr[g_k] == ((g_k < g_p || g_k > g_q) ? g_vk : (g_k < g_q) ? g_vk1 : new))
 __CPROVER_ensures(!(new < old) || arr[g_k] == ((g_k < g_q || g_k > g_p) ? g_vk : (g_k > g_q) ? g_vkm1 : new))
 /* multiset (arbitrary value g_v) */
+#ifndef SR_NO_COUNT
 __CPROVER_ensures(COUNT(arr, n, g_v) == g_cnt - (g_v == old) + (g_v == new))
+#endif
 ;
 
 void h_sort_replace(void)
 {
 	int64_t *arr; int64_t n, old, new;
 	WITNESS_ON(sort_replace);
+#ifdef SR_TYPED
+	__CPROVER_assume(SR_NMIN <= n && n <= SR_NMAX);
+	arr = malloc(SR_ALLOC);
+	__CPROVER_assume(arr != NULL);
+#endif
 	sort_replace(arr, n, old, new);
 	REACH("sort_replace returns");
 	if (w_old < w_new && w_q >= w_p + 2) REACH("old < new, at least two cells shifted down");
